@@ -543,7 +543,22 @@ func runFormProg(c *core.Case, e *entry, prog *formProg, withSubmit bool) {
 	}
 
 	// F for the submission, compared by meaning (Get): submit-type forms are
-	// documented to normalise values ("1" -> "true", lines re-split)
+	// documented to normalise values ("1" -> "true", lines re-split).  Set, Get
+	// and Submit address fields by name: with duplicate or empty names in the
+	// original form the submission is not a function of the fields, so F is
+	// only judged for forms whose names identify their fields.
+	for v, n := range count {
+		if n > 1 && v != "" {
+			c.Count("form_submissions_with_ambiguous_names", 1)
+			return
+		}
+	}
+	for _, f := range prog.Fields {
+		if f.Var == "" && f.Ctor != "Fixed" {
+			c.Count("form_submissions_with_ambiguous_names", 1)
+			return
+		}
+	}
 	c.Count("law_F_checked", 1)
 	var b2 []byte
 	var err2 error
@@ -563,15 +578,20 @@ func runFormProg(c *core.Case, e *entry, prog *formProg, withSubmit bool) {
 		return
 	}
 	d2 := v2.(*form.Data)
+	// Get looks fields up by name: only names that are non-empty and unique in
+	// the submission identify a field.
 	var vars []string
-	seen := map[string]bool{}
+	seen := map[string]int{}
 	d1.ForFields(func(f form.FieldData) {
-		if !seen[f.Var] {
-			seen[f.Var] = true
+		if seen[f.Var] == 0 {
 			vars = append(vars, f.Var)
 		}
+		seen[f.Var]++
 	})
 	for _, id := range vars {
+		if id == "" || seen[id] != 1 {
+			continue
+		}
 		g1, ok1 := d1.Get(id)
 		g2, ok2 := d2.Get(id)
 		if semantic(g1, ok1) != semantic(g2, ok2) {
